@@ -118,6 +118,15 @@ def cases_for(tier, rng):
             if tier == 'thorough':
                 for b3 in blocks([b2])[:6]:
                     cases.append(dict(prog=[b3] + tail, src=src(), K=0, fk=[]))
+    # 6. exception classes with several direct bases (raised by namespace callables): every base is a match
+    mnames = ['ValueError', 'LookupError', 'OSError', 'KeyError', 'MultiError', '']
+    for cls in ('MultiError', 'DeepMultiError', 'UnsupportedOperation'):
+        ns6 = dict(NS, fx=fn('FX', plain('never'), beh=cls))
+        for n in (1, 2):
+            for names in itertools.permutations(mnames, n):
+                body = [T('b1'), V('fx'), T('b2')]
+                cases.append(dict(prog=[Try([mk_try(body, list(names), False)], [([], [T('OUT:'), V('error_type')])], None)] + tail,
+                                  src=sources(kw=ns6), K=0, fk=[]))
     # 5. sub-template: return ends only the sub-template's call
     sub = tmpl('sub', [T('S1'), Try([Return(N('rv'))], [([], [T('never')])], None), T('S2')])
     ns = dict(NS, sub=sub)
@@ -133,7 +142,8 @@ def main(tier):
     return render_common.run(
         PID, tier, cases, ['result', 'calls'], batch=2500,
         assumptions=['exception classes are builtins (Exception > LookupError > KeyError, IndexError; ValueError; '
-                     'ZeroDivisionError) raised by dtml-raise or by namespace callables',
+                     'ZeroDivisionError) raised by dtml-raise or by namespace callables; classes with two direct bases (a custom '
+                     'LookupError+ValueError class, its subclass, io.UnsupportedOperation) raised by namespace callables',
                      'messages are compared as the first argument of the exception'],
         rule='handler lists (permutations of <= 3 of 5 class names and the bare handler, multi-name handlers) x '
              'raised class x else; raises in handler/else inside an outer try; finally x {normal, raise, return} '
